@@ -854,8 +854,15 @@ Section PureEnvs.
       + inversion H; subst. split; auto. intros v E. discriminate.
   Qed.
 
-  Lemma bin_op_envs0 : forall o a b v, bin_op o a b = OVal v -> envs0 v = true.
-  Proof. intros o a b v H. destruct o, a, b; simpl in H; try discriminate; inversion H; auto. Qed.
+  Lemma bin_op_envs0 : forall o a b v, envs0 a = true -> envs0 b = true -> bin_op o a b = OVal v -> envs0 v = true.
+  Proof.
+    intros o a b v Ha Hb H.
+    destruct o, a; try (destruct b; simpl in H; try discriminate; inversion H; subst; reflexivity).
+    (* array + ... *)
+    rewrite envs0_arr in Ha.
+    destruct b; simpl in H; try discriminate; inversion H; subst; rewrite envs0_arr, forallb_app, Ha; simpl; auto;
+      try (simpl in Hb; rewrite Hb; reflexivity); try (rewrite envs0_arr in Hb; rewrite Hb; reflexivity).
+  Qed.
 
   Lemma peval_envs0 : forall k, envs_at k.
   Proof.
@@ -885,7 +892,7 @@ Section PureEnvs.
       destruct (is_err v1); [inversion H; subst; exact (IH _ _ _ _ HE C1 E1)|].
       destruct (peval fd k env e2) as [o2 out2] eqn:E2. destruct o2 as [v2| |]; try discriminate.
       destruct (is_err v2); [inversion H; subst; exact (IH _ _ _ _ HE C2 E2)|].
-      inversion H; subst. eapply bin_op_envs0; eauto.
+      inversion H; subst. eapply bin_op_envs0; [exact (IH _ _ _ _ HE C1 E1) | exact (IH _ _ _ _ HE C2 E2) | eauto].
     - apply andb_prop in HC. destruct HC as [HC C3]. apply andb_prop in HC. destruct HC as [C1 C2].
       destruct (peval fd k env e1) as [o1 out1] eqn:E1. destruct o1 as [v1| |]; try discriminate.
       destruct v1; try (inversion H; subst; auto; fail).
@@ -1222,7 +1229,7 @@ Section Root.
           pose proof SB as [OB [OUTB [LGB [RFB1 [RFB0 EVB]]]]]. rewrite <- OB in H0.
           destruct (r_oc b1) as [v2| |] eqn:OBB.
           -- destruct (is_err v2) eqn:E2; inversion H1; inversion H0; subst; split; auto; apply same_res_oc; auto using same_res_then;
-               intros w W; try (inversion W; subst; auto; fail); eapply bin_op_envs0; eauto.
+               intros w W; try (inversion W; subst; auto; fail); eapply bin_op_envs0; [apply (EV v1); auto | apply (EVB v2); auto | eauto].
           -- inversion H1; inversion H0; subst. split; auto using same_res_then.
           -- congruence.
       + inversion H1; inversion H0; subst. split; auto.
